@@ -82,8 +82,26 @@ theorem diffusion_flux_sum_zero {e : EngIn} (P : Pairing e) (x : State) (s : Nat
     rw [hg]
     simp only [g, hback, hinv]
 
+/-- the diffusion part of all derivatives of one species sums to zero over the space -/
+def DiffusionBalanced (e : EngIn) (x : State) : Prop :=
+  ∀ s, ∑ i ∈ range e.topo.nCells, ∑ n ∈ range (e.topo.nSlots i),
+    (if (e.topo.nbr i n).isSome then diffusionRateDifference e x i s n else 0) = 0
+
+theorem diffusionBalanced_of_pairing {e : EngIn} (P : Pairing e) (x : State) : DiffusionBalanced e x := by
+  intro s
+  have : ∑ i ∈ range e.topo.nCells, ∑ n ∈ range (e.topo.nSlots i),
+      (if (e.topo.nbr i n).isSome then diffusionRateDifference e x i s n else 0) =
+      ∑ p ∈ halfEdges e, diffusionRateDifference e x p.1 s p.2 := by
+    unfold halfEdges
+    rw [Finset.sum_sigma]
+    apply Finset.sum_congr rfl
+    intro i _
+    rw [Finset.sum_filter]
+  rw [this, diffusion_flux_sum_zero P x s]
+
 /-- `reaction_total_zero` and `diffusion_total_zero` combined: the weighted sum of all derivatives vanishes -/
-theorem euler_flux_zero {e : EngIn} {c : Nat → Rat} (hc : Cons e.net c) (hf : Free e c) (P : Pairing e) (x : State) :
+theorem euler_flux_zero_of_balanced {e : EngIn} {c : Nat → Rat} (hc : Cons e.net c) (hf : Free e c) (x : State)
+    (hbal : DiffusionBalanced e x) :
     ∑ i ∈ range e.topo.nCells, ∑ s ∈ range e.net.nSpecies, c s * eulerDxdt e x i s = 0 := by
   have h1 : ∀ i ∈ range e.topo.nCells, ∀ s ∈ range e.net.nSpecies, c s * eulerDxdt e x i s =
       c s * (∑ r ∈ range e.net.nReact, (e.net.sto s r : Rat) * reactionRate e x i r) -
@@ -114,17 +132,25 @@ theorem euler_flux_zero {e : EngIn} {c : Nat → Rat} (hc : Cons e.net c) (hf : 
     rw [Finset.sum_comm]
     apply Finset.sum_eq_zero
     intro s _
-    rw [← Finset.mul_sum]
-    have : ∑ i ∈ range e.topo.nCells, ∑ n ∈ range (e.topo.nSlots i),
-        (if (e.topo.nbr i n).isSome then diffusionRateDifference e x i s n else 0) =
-        ∑ p ∈ halfEdges e, diffusionRateDifference e x p.1 s p.2 := by
-      unfold halfEdges
-      rw [Finset.sum_sigma]
-      apply Finset.sum_congr rfl
-      intro i _
-      rw [Finset.sum_filter]
-    rw [this, diffusion_flux_sum_zero P x s, mul_zero]
+    rw [← Finset.mul_sum, hbal s, mul_zero]
   rw [hreac, hdiff, sub_zero]
+
+theorem euler_flux_zero {e : EngIn} {c : Nat → Rat} (hc : Cons e.net c) (hf : Free e c) (P : Pairing e) (x : State) :
+    ∑ i ∈ range e.topo.nCells, ∑ s ∈ range e.net.nSpecies, c s * eulerDxdt e x i s = 0 :=
+  euler_flux_zero_of_balanced hc hf x (diffusionBalanced_of_pairing P x)
+
+/-- `euler_conserves` from the balance of the diffusion sums -/
+theorem euler_conserves_of_balanced {e : EngIn} {c : Nat → Rat} (hc : Cons e.net c) (hf : Free e c)
+    (dt : Rat) (x : State) (hbal : DiffusionBalanced e x) : total e c (eulerStep e dt x) = total e c x := by
+  unfold total eulerStep
+  have : ∀ i ∈ range e.topo.nCells, ∑ s ∈ range e.net.nSpecies, c s * (x i s + eulerDxdt e x i s * dt) =
+      ∑ s ∈ range e.net.nSpecies, c s * x i s + dt * ∑ s ∈ range e.net.nSpecies, c s * eulerDxdt e x i s := by
+    intro i _
+    rw [Finset.mul_sum, ← Finset.sum_add_distrib]
+    apply Finset.sum_congr rfl; intro s _; ring
+  simp only []
+  rw [Finset.sum_congr rfl this, Finset.sum_add_distrib, ← Finset.mul_sum, euler_flux_zero_of_balanced hc hf x hbal]
+  simp
 
 /-- `euler_conserves`: one `Compute_dxdt` + `Apply_dxdt`, exactly over ℚ, for every time step -/
 theorem euler_conserves {e : EngIn} {c : Nat → Rat} (hc : Cons e.net c) (hf : Free e c) (P : Pairing e)
